@@ -6,51 +6,51 @@ ROOT = os.path.dirname(os.path.dirname(os.path.abspath(__file__)))
 CLAIMED = {
  "C03": dict(engine="store-sim", category="exploration", ref="DESIGN.md 4.1",
    technique="deterministic simulation: seeded histories of logical clients over shared state, checked step by step against a reference store model",
-   text="Seeded exploration of operation histories (definitions, assignments, closure creation/calls, vector operations through every kind of alias) on one real interpreter; after every step the returned value, every global and the alias classes of all reachable vectors are compared with an independent reference store. Sampling, not proof: the space of histories is unbounded, and what matters is the order of writes and reads through different paths, which is exactly what the schedule varies. Histories include counters whose state lives in bindings made by internal defines (also evaluated late), by let / let* (one name bound twice) and inside the bodies of the bundled derived forms (begin, cond, when, or, and), vectors that contain themselves, redefined container names, and writes placed inside derived forms.",
+   text="Seeded exploration of operation histories (definitions, assignments, closure creation/calls, vector operations through every kind of alias) on one real interpreter; after every step the returned value, every global and the alias classes of all reachable vectors are compared with an independent reference store. Sampling, not proof: the space of histories is unbounded, and what matters is the order of writes and reads through different paths, which is exactly what the schedule varies. Histories include counters whose state lives in bindings made by internal defines (also evaluated late), by let / let* (one name bound twice) and inside the bodies of the bundled derived forms (begin, cond, when, or, and), vectors that contain themselves, redefined container names and integers, writes placed inside derived forms, globals named like the helpers' internals, a procedure-valued global that long-lived closures call, recursive and self-replacing definitions whose name is assigned, local bindings that shadow top-level procedures in tail position, and eqv? on closures as a form that only has to come back.",
    note="Trusted: the reference store model (sim/src/refint.rs), the structural observer, the getrandom seam for replay. Fault-free configuration; run-time errors other than literal-vector mutation are C08's."),
  "C08": dict(engine="store-sim", category="fault_enumeration", ref="DESIGN.md 4.2",
    technique="deterministic simulation with fault injection: run-time errors injected as faults at static position x dynamic occurrence into seeded histories, checked against a reference store model",
-   text="Engine A's histories with 0-3 fault transactions each: 8 fault kinds x calling contexts (operand, tail, tail-if arm, after trampoline bounces, mutual tail recursion, apply, n-th element inside for-each/fold-left/fold-right/map, caller with post-effects, operand of a tail call, test of an if, argument of a setter closure, test / clause body / receiver / else of a cond, operand of and / or, body or test of when / unless / begin, definition initialiser), nested to depth 2, also as storms of the same failing form, with type faults placed after an absorbing element, optionally firing at the n-th dynamic evaluation through a host procedure. The error kind, the host effect trace (pre-effects once, no post-effect) and the whole store are checked immediately after the error and for the rest of the history. Kind x context fired counts are reported in the evidence.",
+   text="Engine A's histories with 0-3 fault transactions each: 8 fault kinds x calling contexts (operand, tail, tail-if arm, after trampoline bounces, mutual tail recursion, apply, n-th element inside for-each/fold-left/fold-right/map, caller with post-effects, operand of a tail call, test of an if, argument of a setter closure, test / clause body / receiver / else of a cond, operand of and / or, body or test of when / unless / begin, definition initialiser), nested to depth 2, also as storms of the same failing form, with type faults placed after an absorbing element, improper lists handed to apply, numbers that are not exact integers (and the vector itself) as index or length, faults while the operator is worked out, inside vector construction, as internal-definition and redefinition initialisers, as arguments of a program macro, procedures applied where they are written, and a call with two failing operands judged order-neutrally (exactly one operand's effect and error), optionally firing at the n-th dynamic evaluation through a host procedure. The error kind, the host effect trace (pre-effects once, no post-effect) and the whole store are checked immediately after the error and for the rest of the history. Kind x context fired counts are reported in the evidence.",
    note="Trusted: reference store model, mapping of LogicError variants to error kinds, the (sim host) procedures. Which of several independent errors wins is never exercised (one fault per transaction)."),
 }
 
 CLAIMED.update({
  "C12": dict(engine="import-sim", category="exploration", ref="DESIGN.md 4.3",
    technique="deterministic simulation over the hash-order seam: each seeded import declaration is executed under several controlled HashMap key seeds and compared with a set-algebra model and with itself across seeds",
-   text="Seeded import declarations (1-3 import sets, only/except/prefix/rename nested to depth 2 quick / 3 thorough, admissible by construction incl. swaps and chains) over a library delivered natively, as registered text or as a file; each run on a fresh interpreter under 4 (quick) / 16 (thorough) hash-key seeds supplied through an interposed getrandom. A third of the cases add a second declaration that may land on names the first one bound; a quarter make the declaration inside a wrapper library that passes on what it received; libraries with two exports of one value, with 20 exports, with names that are prefixes of each other. Two verdicts: the bindings the declaration adds equal the algebra under every seed; all seeds agree. The second verdict and exact replay are what simulation adds; the term space itself is sampled, not enumerated.",
+   text="Seeded import declarations (1-3 import sets, only/except/prefix/rename nested to depth 2 quick / 3 thorough, admissible by construction incl. swaps and chains) over a library delivered natively, as registered text or as a file; each run on a fresh interpreter under 4 (quick) / 16 (thorough) hash-key seeds supplied through an interposed getrandom. A third of the cases add a second declaration that may land on names the first one bound; a quarter make the declaration inside a wrapper library that passes on what it received; libraries with two exports of one value, with 20 exports (few names struck from it), with names that are prefixes of each other, with native procedures as exports (identity by the interpreter's own equality), with values not equal to themselves, a facade passing on another library's bindings, two libraries exporting equal-looking vectors under one name (identity probed through accessors); a failing declaration may come first; identifier lists naming an absent identifier and a second declaration rebinding an import are judged only if the implementation accepts them. Two verdicts: the bindings the declaration adds equal the algebra under every seed; all seeds agree. The second verdict and exact replay are what simulation adds; the term space itself is sampled, not enumerated.",
    note="Trusted: the set algebra (engine_c::algebra + refint import sets), getrandom interposition as the only source of HashMap order. Inadmissible declarations are not generated."),
  "C13": dict(engine="library-world", category="exploration", ref="DESIGN.md 4.4",
    technique="deterministic simulation: seeded library worlds (files + registered sources + decoy working directory) and histories of imports, driver probes and program forms, checked against a reference module system",
-   text="Seeded worlds of 1-4 healthy libraries in a DAG with private state, private helpers, exports with and without rename; histories interleave import declarations (direct/prefix/only/rename) with driver-level calls of exported procedures and then program forms that redefine colliding names and call exported procedures. Libraries also re-export, export constants, rename exports onto internally bound names, import their dependencies through prefix/only/rename, keep a private macro or procedure of one common name, one library has no import declaration at all, one no export declaration, one is provided natively with a fresh mutable box per factory call, some assign a name they imported; declarations come in several pieces and orders, library files may hold other libraries or plain forms ahead of the wanted one; failing import declarations occur inside the histories. Every step is compared with a reference module system (one instance per library per interpreter); decoy libraries in the working directory must never be observed.",
+   text="Seeded worlds of 1-4 healthy libraries in a DAG with private state, private helpers, exports with and without rename; histories interleave import declarations (direct/prefix/only/rename) with driver-level calls of exported procedures and then program forms that redefine colliding names and call exported procedures. Libraries also re-export, export constants, rename exports onto internally bound names, import their dependencies through prefix/only/rename, keep a private macro or procedure of one common name, one library has no import declaration at all, one no export declaration, one is provided natively with a fresh mutable box per factory call, some assign a name they imported; declarations come in several pieces and orders, library files may hold other libraries or plain forms ahead of the wanted one; failing import declarations occur inside the histories; further: look-alike names (lib u v)/(lib |u v|), names with punctuation, drafts of other libraries in a file, one binding under two external names, a private procedure handed out, a body that calls a dependency while it loads (one such library per world), an assignment between definitions, the program directory respelled between declarations, and leniently imported libraries that redefine or assign an import. Every step is compared with a reference module system (one instance per library per interpreter); decoy libraries in the working directory must never be observed.",
    note="Trusted: reference module system in sim/src/refint.rs; libraries export procedures only. Fault-free configuration; faults are C14's."),
  "C14": dict(engine="library-world", category="fault_enumeration", ref="DESIGN.md 4.5",
    technique="deterministic simulation with fault injection: library health faults (missing, wrong name, faulting body, broken syntax, invalid UTF-8, directory, empty, truncated, dangling symlink), cycles and heal/break events injected into seeded import histories; oracle = graph analysis + fresh-interpreter run",
-   text="Seeded arbitrary import graphs with per-node health faults placed on reachable nodes, histories of 1-4 import attempts on one interpreter with heal/break events between them, decoy libraries in the working directory, program directory absolute or relative, set late (attempts before any program ran) or moved to a second project between attempts; one run in 25 is a chain of 2-110 libraries (ending normally, in a back edge, in a missing or faulting library). Each attempt's outcome class must be one of the causes reachable in the graph as it is (Ok if none), must not panic, and is compared with the same import on a fresh real interpreter (history independence); cases with two or more reachable causes are executed again under a second hash-key seed and must report the same sequence (the outcome depends only on the graph). Unbounded loader recursion is caught by a nesting limit in the verification hook, process death is caught through the worker journal.",
+   text="Seeded arbitrary import graphs with per-node health faults placed on reachable nodes, histories of 1-4 import attempts on one interpreter with heal/break events between them, decoy libraries in the working directory, program directory absolute or relative, set late (attempts before any program ran) or moved to a second project between attempts; one run in 25 is a chain of 2-110 libraries (ending normally, in a back edge, in a missing or faulting library); attempts also through import sets that ask for nothing or keep everything; a library that exports a name it never defines; a library without exports imported by others and repeatedly. Each attempt's outcome class must be one of the causes reachable in the graph as it is (Ok if none), must not panic, and is compared with the same import on a fresh real interpreter (history independence); cases with two or more reachable causes are executed again under a second hash-key seed and must report the same sequence (the outcome depends only on the graph). Unbounded loader recursion is caught by a nesting limit in the verification hook, process death is caught through the worker journal.",
    note="Trusted: reachability/cycle analysis in engine_b::analyse; byte damage is placed inside the define-library form. Which of several reachable causes is reported is left open; after heal/break/move events an old version of a library is accepted only if an earlier attempt on that interpreter could have read it (or it was registered)."),
 })
 
 CLAIMED.update({
  "C19": dict(engine="isolation-sim", category="exploration", ref="DESIGN.md 4.9",
    technique="deterministic simulation: a seeded scheduler interleaves the forms of two programs over interpreter instances on one thread, with instance creation as a scheduled event; oracle = solo reference runs of the same real code on fresh threads",
-   text="Seeded program pairs with colliding names (store operations, fault transactions, define-syntax of the same keywords incl. redefinitions of when/unless/cond/let, same-named libraries with different contents, failing imports) interleaved uniformly, in bursts, or one after the other over two or three instances that live on one thread (instances are created at first use and may be dropped after their last form; programs may run a small, often failing, file through eval_file); 0-3 further instances are created at random points and must evaluate a fixed sanity program like an instance on a fresh thread; a third of the programs assign or redefine names of the bundled libraries, a third contain forms that call a host procedure in the middle of their evaluation, inside which the scheduler places forms of the other instances or the creation of an instance. Every form's result must equal the result of the same program run alone.",
+   text="Seeded program pairs with colliding names (store operations, fault transactions, define-syntax of the same keywords incl. redefinitions of when/unless/cond/let, same-named libraries with different contents, failing imports) interleaved uniformly, in bursts, or one after the other over two or three instances that live on one thread (instances are created at first use and may be dropped after their last form; programs may run a small, often failing, file through eval_file); 0-3 further instances are created at random points and must evaluate a fixed sanity program like an instance on a fresh thread; a third of the programs assign or redefine names of the bundled libraries, a third contain forms that call a host procedure in the middle of their evaluation (also from a library body while it is loaded, and in texts with further forms to come), inside which the scheduler places forms of the other instances or the creation of an instance; further: storms of failing derived-form uses, variables named like derived forms, a natively provided and a one-instance-only registered library, a second declaration over an imported library, a library assigning in the native layer, instances without a program directory over a working directory with libraries of its own. Every form's result must equal the result of the same program run alone.",
    note="Trusted: structural observer; solo runs of the same build as reference (metamorphic, no expected values). Only the one-thread configuration is explored: instances on different threads share no state by construction."),
 })
 
 CLAIMED.update({
  "C17": dict(engine="cli-sim", category="fault_enumeration", ref="DESIGN.md 4.7",
    technique="deterministic simulation of whole process runs of the real binary: generated program/library files, working directory, path spelling, layout and file-level faults, one injected failing form; oracle = marker model + in-process evaluation of the same text",
-   text="Each run launches the real ruschm binary (built from /repo) with an empty environment and a hash seed supplied through an LD_PRELOAD shim, over a generated world: program of 3-25 items that display marker-bracketed values, sibling libraries that print at load time, decoy libraries in unrelated working directories, four working directories x four path spellings, LF/CRLF, with or without final newline; two thirds of the runs contain exactly one failing form (run-time, syntax, import), a sixth a file-level fault (missing, directory, empty, invalid UTF-8, truncated). Checked: marker sequence up to the failing form and nothing after, exit status, one diagnostic line PATH[:L:C] MESSAGE on stderr, byte-identical stdout / same message / same location as the in-process evaluation.",
+   text="Each run launches the real ruschm binary (built from /repo) with an empty environment and a hash seed supplied through an LD_PRELOAD shim, over a generated world: program of 3-25 items that display marker-bracketed values, sibling libraries that print at load time, decoy libraries in unrelated working directories, four working directories x four path spellings, LF/CRLF, with or without final newline; two thirds of the runs contain exactly one failing form (run-time, syntax, import), a sixth a file-level fault (missing, directory, empty, invalid UTF-8, truncated); further: a working directory removed before the program starts, the program arriving through a named pipe, an interpreter line first, file names with spaces or other scripts, long definitions of multi-byte characters, bare value expressions, FILE spelled through a missing directory or a symbolic link; either load order of one declaration's import sets is accepted. Checked: marker sequence up to the failing form and nothing after, exit status, one diagnostic line PATH[:L:C] MESSAGE on stderr, byte-identical stdout / same message / same location as the in-process evaluation.",
    note="Trusted: marker model, ANSI stripping, the in-process run as rendering reference. Write errors on stdout and signals are not injected."),
  "C18": dict(engine="repl-sim", category="fault_enumeration", ref="DESIGN.md 4.8",
    technique="deterministic simulation of REPL sessions: a simulated user types generated lines into the real binary over a pipe in lock-step (FIONREAD + /proc/PID/syscall), several line splittings per sequence, EOF injected after a random line; oracle = nesting-depth judge + per-line output attribution + in-process transcript",
-   text="Sessions of 3-20 submissions typed under three different line splittings each (breaks only inside forms, blank/whitespace/comment-only lines, trailing comments with parentheses, literals containing parentheses and semicolons in a third of the cases), one line at a time, waiting after each line until the child has consumed it and blocks in read(0). After a line that completes nothing, nothing may be printed; after a completing line stderr must carry exactly the message and stdout everything up to the last newline; the final transcript equals the in-process evaluation of the forms one after another (each form by itself, only the last value of a submission shown); transcripts agree across splittings; EOF after any line ends the session cleanly and input whose lists never closed produces no output. Sessions include string literals typed across two lines, literals containing parentheses and semicolons, vector literals, and lines longer than a pipe buffer.",
+   text="Sessions of 3-20 submissions typed under three different line splittings each (breaks only inside forms, blank/whitespace/comment-only lines, trailing comments with parentheses, literals containing parentheses and semicolons in a third of the cases), one line at a time, waiting after each line until the child has consumed it and blocks in read(0). After a line that completes nothing, nothing may be printed; after a completing line stderr must carry exactly the message and stdout everything up to the last newline; the final transcript equals the in-process evaluation of the forms one after another (each form by itself, only the last value of a submission shown); transcripts agree across splittings; EOF after any line ends the session cleanly and input whose lists never closed produces no output. Sessions include string literals typed across two lines, literals containing parentheses and semicolons, vector literals, lines longer than a pipe buffer, macro definitions (also with an ellipsis) and uses, values of many kinds incl. ones printing as several lines or ending in a line break, effectful submissions ending in a surplus parenthesis or a dangling quote mark, a bar identifier ending in a backslash, and occasional sessions of 150-260 submissions.",
    note="Trusted: lock-step synchronisation through /proc (exit 2 if unreadable), the generator's depth count as completeness judge, in-process evaluation of single forms as transcript reference; banner and farewell are learned from an empty session of the same binary. Polling uses real sleeps only to wait; no outcome depends on timing."),
 })
 
 CLAIMED.update({
  "C07": dict(engine="damage-sim", category="fault_enumeration", ref="DESIGN.md 4.6",
    technique="deterministic simulation with storage-fault injection: valid program and library files are damaged (truncation, bit flips, zeroed/duplicated/transposed sectors, stale tail, BOM, dropped/inserted bytes, directory/empty/dangling in place of a file) and then used on a fresh interpreter under an evaluation budget; oracle = returns, never panics, interpreter still usable",
-   text="The storage-fault slice of C07: the interpreter is a reader of files it does not control. Seeded worlds of valid sources (repository examples, bundled library texts used as user files, programs and library worlds rendered from engines A and B) receive 1-3 storage faults and are used through eval_file / import (or eval of the lossily decoded text); the call must return Ok or Err without panicking, and sanity forms (plus a further import when the failure struck while the program was still importing) must then evaluate on the same interpreter; a quarter of the runs hand the damaged world to the real ruschm binary instead, which must end with a diagnostic and not with a panic. Budget exhaustion, timeouts, stack and memory exhaustion are counted and discarded as the property says.",
+   text="The storage-fault slice of C07: the interpreter is a reader of files it does not control. Seeded worlds of valid sources (repository examples, bundled library texts used as user files, programs and library worlds rendered from engines A and B) receive 1-3 storage faults and are used through eval_file / import (or eval of the lossily decoded text); the call must return Ok or Err without panicking, and sanity forms (plus a further import when the failure struck while the program was still importing) must then evaluate on the same interpreter; a quarter of the runs hand the damaged world to the real ruschm binary instead, which must end with a diagnostic and not with a panic; in-process runs have a wall-clock deadline of 45 s (evaluation is bounded by the step budget, so only reading or expanding can exceed it); damage includes one or two inserted bytes (biased towards pairs that open or close something in the reader) and whole-file duplication; the corpus includes macro-heavy, ellipsis-heavy, non-ASCII and edge-escape programs and engine A histories with their fault transactions. Budget exhaustion, timeouts, stack and memory exhaustion are counted and discarded as the property says.",
    note="Only the part of C07 that mentions files with faults is decided. The clause over all character sequences as such (exhaustive short strings, token soup) is input enumeration with nothing to schedule or inject; it is not emulated. Trusted: panic hook + catch_unwind, budget hooks, worker journal for process deaths."),
 })
 
